@@ -51,6 +51,74 @@ type c18Case struct {
 	// and each clones and copies a message of its own, ConcRounds times; every result is its caller's message
 	Conc       int `json:",omitempty"`
 	ConcRounds int `json:",omitempty"`
+	// Odd != "": separate small modes. "bad-source": a generated Message whose map has a key that is not valid UTF-8
+	// (it cannot be serialised) is copied into a dynamic message of the same type: refused, or copied completely
+	// and independently - never "success" with the source's memory inside. "other-desc": a dynamic message is copied
+	// into a dynamic message of the same type whose descriptor was built separately (a proxy that loaded the same
+	// .proto twice): the same message type, so the copy succeeds.
+	Odd string `json:",omitempty"`
+}
+
+func c18OtherDesc(typ string) *desc.MessageDescriptor {
+	md := c18Desc(typ)
+	fd := md.GetFile()
+	fd2, err := desc.CreateFileDescriptor(fd.AsFileDescriptorProto(), fd.GetDependencies()...)
+	if err != nil {
+		panic(err)
+	}
+	return fd2.FindMessage(md.GetFullyQualifiedName())
+}
+
+func c18Odd(c c18Case) *Outcome {
+	o := &Outcome{NonTrivial: true}
+	o.class("adapter=%s/%s", c.Adapter, c.Odd)
+	cl := c18Adapter(c.Adapter)
+	var err error
+	panicked := ""
+	call := func(f func()) {
+		defer func() {
+			if r := recover(); r != nil {
+				panicked = fmt.Sprintf("%v\n%s", r, debug.Stack())
+			}
+		}()
+		f()
+	}
+	switch c.Odd {
+	case "bad-source":
+		payload := []byte("payload-bytes-of-the-source")
+		src := &pb.Message{Count: 3, Payload: payload, Headers: map[string][]byte{"bin-key\xff": []byte("value-bytes")}}
+		dst := dynamic.NewMessage(c18Desc("msg"))
+		call(func() { err = cl.Copy(dst, src) })
+		if panicked != "" {
+			return o.failf("%s.Copy(dynamic <- generated message that cannot be serialised) panicked: %s", c.Adapter, firstLine(panicked))
+		}
+		o.Observed = map[string]interface{}{"err": errStr(err)}
+		if err != nil {
+			return o // refused: fine
+		}
+		// accepted: then it is a complete copy that shares nothing
+		flipBytes(dst)
+		if string(src.Payload) != "payload-bytes-of-the-source" || string(src.Headers["bin-key\xff"]) != "value-bytes" {
+			return o.failf("%s.Copy(dynamic <- generated message whose map key is not valid UTF-8) returned nil, and the copy shares the source's byte arrays", c.Adapter)
+		}
+	case "other-desc":
+		src := c18Val{Type: "msg", Dyn: true, Bytes: c.Src.Bytes}.build()
+		dst := dynamic.NewMessage(c18OtherDesc("msg"))
+		dst.TrySetFieldByName("count", int32(99))
+		call(func() { err = cl.Copy(dst, src) })
+		if panicked != "" {
+			return o.failf("%s.Copy between dynamic messages of one type with separately built descriptors panicked: %s", c.Adapter, firstLine(panicked))
+		}
+		o.Observed = map[string]interface{}{"err": errStr(err)}
+		if err != nil {
+			return o.failf("%s.Copy between two dynamic messages of the same message type (descriptors built separately) was refused: %v", c.Adapter, err)
+		}
+		want, _ := c18Wire(src)
+		if got, _ := c18Wire(dst); string(got) != string(want) {
+			return o.failf("%s.Copy between two dynamic messages of the same type (descriptors built separately): destination differs from the source", c.Adapter)
+		}
+	}
+	return o
 }
 
 func c18Concurrent(c c18Case) *Outcome {
@@ -279,6 +347,9 @@ type c18NonProto struct {
 }
 
 func propC18(c c18Case) *Outcome {
+	if c.Odd != "" {
+		return c18Odd(c)
+	}
 	if c.Conc > 0 {
 		return c18Concurrent(c)
 	}
@@ -486,6 +557,11 @@ var c18Types = []string{"msg", "msg", "msg", "trailer", "trailer", "struct", "an
 func genC18(t *rapid.T) c18Case {
 	c := c18Case{Adapter: rapid.SampledFrom([]string{"proto", "codec", "clonefunc", "copyfunc"}).Draw(t, "adapter"), Op: rapid.SampledFrom([]string{"clone", "copy", "copy"}).Draw(t, "op")}
 	c.Poison = rapid.IntRange(0, 4).Draw(t, "poison") == 0
+	if rapid.IntRange(0, 29).Draw(t, "odd") == 0 {
+		c := c18Case{Adapter: rapid.SampledFrom([]string{"proto", "codec", "clonefunc", "copyfunc"}).Draw(t, "oadapter"), Odd: rapid.SampledFrom([]string{"bad-source", "other-desc"}).Draw(t, "oddkind")}
+		c.Src = genC18Val(t, "osrc", "msg")
+		return c
+	}
 	if rapid.IntRange(0, 29).Draw(t, "concurrent") == 0 {
 		return c18Case{Adapter: rapid.SampledFrom([]string{"proto", "codec", "clonefunc", "copyfunc"}).Draw(t, "cadapter"), Conc: rapid.IntRange(2, 8).Draw(t, "conc"), ConcRounds: 400,
 			Src: c18Val{Type: "msg", Dyn: rapid.Bool().Draw(t, "cdyn")}}
